@@ -23,6 +23,7 @@ type State struct {
 	inputs   []InputDecl
 	obs      []Observation
 	obsBad   bool
+	tag      string // deliberate case splits (vChoice, vBytesEach, concretize): states with different tags never merge
 }
 
 func newState() *State {
@@ -45,6 +46,7 @@ func (s *State) fork() *State {
 	n.inputs = append([]InputDecl(nil), s.inputs...)
 	n.obs = append([]Observation(nil), s.obs...)
 	n.obsBad = s.obsBad
+	n.tag = s.tag
 	return n
 }
 
@@ -209,7 +211,7 @@ func (e *Exec) store(st *State, p Ptr, v Value) {
 
 // tryMerge merges b into a (returning a new state) or reports failure.
 func (e *Exec) tryMergeStates(a, b *State) (m *State, cond *Term, ok bool) {
-	if a.noMerge || b.noMerge || e.opts.NoMerge {
+	if a.noMerge || b.noMerge || e.opts.NoMerge || a.tag != b.tag {
 		return nil, nil, false
 	}
 	if (a.panicVal != nil) != (b.panicVal != nil) {
@@ -239,7 +241,7 @@ func (e *Exec) tryMergeStates(a, b *State) (m *State, cond *Term, ok bool) {
 			panic(r)
 		}
 	}()
-	n := &State{heap: make(map[int]Value, len(a.heap)), counts: map[string]int{}}
+	n := &State{heap: make(map[int]Value, len(a.heap)), counts: map[string]int{}, tag: a.tag}
 	for id, va := range a.heap {
 		if vb, ok := b.heap[id]; ok {
 			if sameValue(va, vb) {
